@@ -6,6 +6,7 @@
 //!  * natively by /verif/replay against the REAL dependency tree, where `Src` is a byte
 //!    tape taken from a counterexample that Kani's concrete playback printed.
 #![allow(dead_code, unused_imports, unused_macros, clippy::all)]
+#![recursion_limit = "512"]
 #![cfg_attr(kani, feature(allocator_api))]
 
 pub mod src;
@@ -16,6 +17,8 @@ pub mod refs;
 pub mod macros;
 
 pub mod pay;
+#[cfg(kani)]
+pub mod selstubs;
 pub mod recser;
 #[cfg(feature = "c01")]
 pub mod c01;
